@@ -23,7 +23,7 @@ def cases(tier, seed):
         D = int(rng.choice([1, 2, 3], p=[0.35, 0.45, 0.2]))
         if rng.random() < 0.25:
             # classification sub-workload
-            tn = rng.choice([None, 1e-3, 0.1])
+            tn = rng.choice([None, 1e-3, 0.1, 0.0])  # (0: identical repeats do not differ by MORE than 0)
             tol = 2.220446049250313e-19 if tn is None else float(tn)
             cls = str(rng.choice(["zero", "half", "double", "big", "equal", "ulp", "ulp"]))
             if cls == "equal":
